@@ -5,7 +5,7 @@
    (strength: partial by construction).  For the two rules whose implementation is not the naive algorithm,
    literal models of the code (Exec/MergeXing.v, Exec/FragCycles.v) are related to declarative statements here. *)
 From ApolloVerif Require Import Base.Chars Ast.Ast Schema.Model Exec.Compat Exec.Valid Exec.ValidProofs
-  Exec.FragCycles Exec.FragCyclesProofs Exec.MergeXing Exec.MergeXingProofs Exec.Known
+  Exec.FragCycles Exec.FragCyclesProofs Exec.MergeXing Exec.MergeXingProofs Exec.Known Exec.KnownProofs
   Exec.MergeXingEquivExpand Exec.MergeXingEquivBridge Exec.MergeXingEquivSem Exec.MergeXingEquivSpec
   Exec.MergeXingEquivKeys Exec.MergeXingEquivMemo Exec.MergeXingEquivDoc Exec.MergeXingEquivRules Exec.MergeXingEquivFuel.
 
@@ -261,6 +261,23 @@ Check C17_xing_equiv : forall s d,
   xv_within_limits d = true ->
   mx_document_ok s d = Some (xv_r_fields_merge s d).
 Print Assumptions C17_xing_equiv.
+
+(* Two deviations of validation/value.rs from the specification that were known-finding classes of this property
+   and are repaired (fixes/fix-c17.patch): the repaired code follows xv_exec_valid on them (carried by the tie, no
+   class filters them any more); the deviations as they were (Exec/Known.v, the xk_old definitions) differ from the specification
+   on the former witnesses: `{ f(j: {a: $u}) }` with `j: JSON` (an undefined variable inside an object literal
+   written for a custom scalar was accepted) and `{ f(j: [null]) }` with `j: JSON!` (a null item in a list literal
+   written for a non-null custom scalar was rejected). *)
+Theorem C17_scalar_literal_old_refuted :
+  (exists s d, xv_r_variables_defined s d = false /\ xv_exec_valid xv_apollo_params s d = false /\
+               xk_old_r_variables_defined s d = true) /\
+  (exists s d, xv_exec_valid xv_apollo_params s d = true /\ xk_old_r_values_correct_type s d = false).
+Proof. exact kx_old_refuted. Qed.
+Check C17_scalar_literal_old_refuted :
+  (exists s d, xv_r_variables_defined s d = false /\ xv_exec_valid xv_apollo_params s d = false /\
+               xk_old_r_variables_defined s d = true) /\
+  (exists s d, xv_exec_valid xv_apollo_params s d = true /\ xk_old_r_values_correct_type s d = false).
+Print Assumptions C17_scalar_literal_old_refuted.
 
 (* ---------- non-vacuity and witnesses ---------- *)
 Definition ex_A : str := [65]. Definition ex_B : str := [66]. Definition ex_C : str := [67].
